@@ -452,3 +452,9 @@ pub fn spine(v: &RVal) -> Vec<crate::ops::KP> {
         }
     }
 }
+
+/// depth-3 universe over {"", 1} with key "a": empty strings and zero-length payloads nested at
+/// every level ([""] is exactly 8 bytes, [[""]] 16 ...)
+pub fn d3e_uni() -> Uni {
+    Uni::new(vec![RVal::s(""), RVal::u(1)], vec!["a"], 2, 3)
+}
